@@ -84,6 +84,9 @@ func (r recWriterB) Write(b []byte) (int, error) {
 }
 
 func msgOf(p, w int) string {
+	if p == 0 && w == 2 {
+		return "" // an empty Write is a message like any other: handed to the destination once, or reported
+	}
 	m := fmt.Sprintf("p%dw%d-%s\n", p, w, strings.Repeat(string(rune('a'+p*4+w)), 3))
 	if (p+2*w)%3 == 1 {
 		// every third message is exactly as long as the capacity of a fresh pooled copy buffer (500 bytes): a
